@@ -112,7 +112,10 @@ func Eval(w *wm.World, x *fw.Rec) {
 		}
 		warned := false
 		for _, e := range ca.Errors() {
-			if strings.Contains(e.Error().Error(), "specified workload "+ps+" as a backend") {
+			msg := e.Error().Error()
+			// "a warning names the blocked backend": the workload's peer string next to the word block / backend, whatever the
+			// rest of the sentence says
+			if !e.IsFatal() && !e.IsSevere() && strings.Contains(msg, ps) && (strings.Contains(strings.ToLower(msg), "block") || strings.Contains(strings.ToLower(msg), "backend")) {
 				warned = true
 			}
 		}
